@@ -299,7 +299,8 @@ def reprObj {L} (F : FmtFacts) : Obj L → List (Tok L)
 
 /-! ### the text, and `reprlib`'s limits -/
 
-/-- the size limits of a `reprlib.Repr` instance that the literal kinds of the model go through -/
+/-- how literals are printed: the size limits of the `reprlib.Repr` instance that the literal kinds
+    of the model go through, and which `repr` the plain segments of a Path go through -/
 structure Limits where
   maxlevel : Nat
   maxtuple : Nat
@@ -310,6 +311,7 @@ structure Limits where
   maxstring : Nat
   maxlong : Nat
   maxother : Nat
+  plainSeg : Bool      -- `_format_path` prints a `'P'` segment with the builtin `repr(part)` (not `bbrepr(part)`)
   deriving DecidableEq, Repr
 
 /-- the `maxiter` argument of `_repr_iterable` / `repr_dict` -/
@@ -321,7 +323,10 @@ def Limits.maxOf (lim : Limits) : Kind → Nat
   | .dict => lim.maxdict
 
 /-- every limit equal to `n` -/
-def Limits.uniform (n : Nat) : Limits := ⟨n, n, n, n, n, n, n, n, n⟩
+def Limits.uniform (n : Nat) (plainSeg : Bool) : Limits := ⟨n, n, n, n, n, n, n, n, n, plainSeg⟩
+
+/-- the `level` a segment is printed at: `repr1(part, maxlevel)` through bbrepr, none through `repr` -/
+def Limits.segLevel (lim : Limits) : Nat := if lim.plainSeg then 0 else lim.maxlevel
 
 /-- what the model needs to know about scalars (ints, strings, bytes, floats, None, …) -/
 structure ScalarOps (L : Type) where
@@ -444,7 +449,7 @@ mutual
   termination_by i => sizeOf i
   decreasing_by all_goals c18_dec
   /-- every argument of a step is printed by `bbrepr(arg)` = `repr1(arg, maxlevel)`; the `'P'`
-      segments of a Path by the builtin `repr(part)` -/
+      segments of a Path by the builtin `repr(part)` (or by `bbrepr(part)`: `Limits.plainSeg`) -/
   def truncStep {L} (S : ScalarOps L) (F : FmtFacts) (lim : Limits) : Step L → Step L
     -- `'.__(%s)' % bbrepr(arg[2:])`: the name of a dunder attribute goes through `repr_str`
     | .attr n => if nameFits F lim n then .attr n else .attr (dunder ++ cutName lim.maxstring (n.drop 2))
@@ -453,7 +458,7 @@ mutual
     | .call args kwargs =>
       .call (args.map (fun a => truncArg S F lim false lim.maxlevel a))
             (kwargs.map (fun p => (p.1, truncArg S F lim false lim.maxlevel p.2)))
-    | .seg a => .seg (truncArg S F lim true 0 a)
+    | .seg a => .seg (truncArg S F lim lim.plainSeg lim.segLevel a)
     | .star => .star
     | .starstar => .starstar
   termination_by s => sizeOf s
